@@ -15,7 +15,7 @@ func main() {
 	outp := flag.String("out", "", "case file")
 	gen := flag.String("gen", "", "GenPkg.v")
 	tier := flag.String("tier", "quick", "")
-	flag.String("prop", "C02", "")
+	prop := flag.String("prop", "", "C02|C03|C07|C10|C11|C14 (empty = all families)")
 	flag.Parse()
 	if *gen != "" {
 		pk.WriteGen(*gen)
@@ -26,6 +26,22 @@ func main() {
 	out := sx.NewOut(*outp)
 	defer out.Close()
 	g := &pk.Gen{Out: out, Rng: sx.NewRng(sx.EnvSeed()), Thorough: *tier == "thorough", Want: map[int]bool{}}
+	families := map[string][]string{
+		"C02": {"one-packet", "cut1", "cut2", "cutmany", "fixed", "allcuts", "complete", "reads-1-byte", "reads-random", "header-split"},
+		"C03": {"history", "consumer", "one-packet"},
+		"C07": {"history", "cutmany", "fixed"},
+		"C10": {"malformed"},
+		"C11": {"one-packet", "cut1", "cutmany", "history", "consumer"},
+		"C14": {"cut-offset", "reads-random-cut", "complete", "cut-timeout"},
+	}
+	if fs, ok := families[*prop]; ok {
+		sel := map[string]bool{}
+		for _, f := range fs {
+			sel[f] = true
+		}
+		g.TagSel = func(c string) bool { return sel[c] }
+	}
 	core.GenRx(g)
 	core.GenConsumer(g)
+	core.GenTransport(g)
 }
